@@ -1,5 +1,8 @@
 use once_cell::sync::Lazy;
+#[cfg(not(feature = "verif"))]
 use parking_lot::RwLock;
+#[cfg(feature = "verif")]
+use crate::verif_sync::RwLock;
 use std::collections::HashMap;
 
 use crate::CacheStats;
@@ -181,6 +184,12 @@ pub fn reset(name: &str) -> bool {
     } else {
         false
     }
+}
+
+/// address of the registry's lock, for the lock observer (feature "verif" only)
+#[cfg(feature = "verif")]
+pub fn verif_lock_id() -> usize {
+    crate::verif_sync::rwlock_id(&STATS_REGISTRY)
 }
 
 #[cfg(test)]
